@@ -129,6 +129,17 @@ Theorem C08_histories : forall p v it o ops s', bytes_ok p -> parse p = Ok v -> 
 Proof. exact fresh_history2_dinv. Qed.
 Print Assumptions C08_histories.
 
+(** with failing steps tolerated (a failed insertion leaves the state as it was): every history runs to the end, without any
+    Panic outcome of the model, and keeps the invariant *)
+Theorem C08_histories_total : forall ops v it, dinv v -> is_response (pp_packet v) -> Forall hop2_ok ops ->
+  exists s', run_hops2_tol ops (v, it) = (s', Ok tt) /\ dinv (fst s') /\ snd s' = it /\ is_response (pp_packet (fst s')).
+Proof. exact hops2_tol_total. Qed.
+Print Assumptions C08_histories_total.
+
+Example C08_tolerant_run_means : forall o ops s, run_hops2_tol (o :: ops) s =
+  match run_hop2 o s with (s1, Ok _) => run_hops2_tol ops s1 | (s1, Err _) => run_hops2_tol ops s1 | (s1, Panic x) => (s1, Panic x) end.
+Proof. reflexivity. Qed.
+
 (** the vocabulary of the two statements above *)
 Example C08_history_vocabulary :
   (forall v, dinv v <->
